@@ -63,22 +63,22 @@ def t_XLERROR(t):
 
 
 def t_ABSOLUTE_CELL(t):
-    r'\$[A-Za-z]+\$[0-9]+'
+    r'\$[A-Za-z]+\$[0-9]+(?![A-Za-z0-9_])'
     return t
 
 
 def t_MIXED_CELL(t):
-    r'(\$[A-Za-z]+[0-9]+)|([A-Za-z]+\$[0-9]+)'
+    r'((\$[A-Za-z]+[0-9]+)|([A-Za-z]+\$[0-9]+))(?![A-Za-z0-9_])'
     return t
 
 
 def t_RELATIVE_CELL(t):
-    r'[A-Za-z]+[0-9]+'
+    r'[A-Za-z]+[0-9]+(?![A-Za-z0-9_])'
     return t
 
 
 def t_VARIABLE(t):
-    r'([A-Za-z]{1,}[A-Za-z_0-9]+)|([A-Za-z_]+)'
+    r'[A-Za-z_][A-Za-z_0-9]*'
     return t
 
 
